@@ -156,6 +156,85 @@ func cmdPublishSame(args []string) {
 			}
 		}
 	}
+	// every publication keeps its identity: what Put returned earlier is not touched by later Puts (also once the ring wraps)
+	for _, kind := range []string{"finite", "valid"} {
+		for _, capN := range []int{2, 3, 4} {
+			name := fmt.Sprintf("%s/auto/cap=%d/identity", kind, capN)
+			var rep sse.Replayer
+			if kind == "finite" {
+				rep, _ = sse.NewFiniteReplayer(capN, true)
+			} else {
+				rep, _ = sse.NewValidReplayer(time.Hour, true)
+			}
+			m := &sse.Message{}
+			m.AppendData("same")
+			var pubs []*sse.Message
+			var encs []string
+			for i := 0; i < 3*capN+2; i++ {
+				o, err := rep.Put(m, []string{sse.DefaultTopic})
+				if err != nil || o == nil {
+					res.violate(fmt.Sprintf("%s: Put %d failed: %v", name, i, err), "publish:put", nil)
+					break
+				}
+				pubs = append(pubs, o)
+				encs = append(encs, o.String())
+			}
+			res.eval(1)
+			res.nontrivial(name)
+			seen := map[*sse.Message]int{}
+			for i, o := range pubs {
+				if j, dup := seen[o]; dup {
+					res.violate(fmt.Sprintf("%s: publications %d and %d are the same object", name, j, i), "publish:identity", nil)
+					break
+				}
+				seen[o] = i
+				if o.ID.String() != strconv.Itoa(i) || o.String() != encs[i] {
+					res.violate(fmt.Sprintf("%s: publication %d changed after later Puts: %q -> %q", name, i, encs[i], o.String()), "publish:identity", nil)
+					break
+				}
+			}
+		}
+	}
+	// ... and the caller's message is never touched, also not when its publication expires and is collected
+	for _, auto := range []bool{false, true} {
+		name := fmt.Sprintf("valid/auto=%v/expiry", auto)
+		now := time.Unix(1_700_000_000, 0)
+		vr, _ := sse.NewValidReplayer(time.Second, auto)
+		vr.Now = func() time.Time { return now }
+		m := &sse.Message{Type: sse.Type("t")}
+		m.AppendData("kept by the caller")
+		if !auto {
+			m.ID = sse.ID("fixed")
+		}
+		before := m.String()
+		other := &sse.Message{}
+		other.AppendData("other")
+		if !auto {
+			other.ID = sse.ID("other")
+		}
+		steps := []struct {
+			adv time.Duration
+			msg *sse.Message
+			gc  bool
+		}{{0, m, false}, {750 * time.Millisecond, m, false}, {500 * time.Millisecond, other, false}, {0, nil, true}, {2 * time.Second, other, true}}
+		for i, st := range steps {
+			now = now.Add(st.adv)
+			if st.msg != nil {
+				if _, err := vr.Put(st.msg, []string{sse.DefaultTopic}); err != nil {
+					res.violate(fmt.Sprintf("%s: Put %d failed: %v", name, i, err), "publish:put", nil)
+				}
+			}
+			if st.gc {
+				vr.GC()
+			}
+			if m.String() != before {
+				res.violate(fmt.Sprintf("%s: after step %d the caller's message changed: %q -> %q", name, i, before, m.String()), "publish:mutated", nil)
+				break
+			}
+		}
+		res.eval(1)
+		res.nontrivial(name)
+	}
 	// through Joe
 	for n := 2; n <= 5; n++ {
 		fr, _ := sse.NewFiniteReplayer(8, true)
